@@ -331,7 +331,7 @@ def main(argv=None):
         print("NOTE %s: %d of %d runs discarded (precondition of another property failed): %r" % (
             focus, total['runs'] - explored, total['runs'], total['notes'].most_common(1)))
     missing = [r for r in engine.REACH.get(focus, []) if not total['stats'].get(r)]
-    if missing and total['runs'] >= 1500 and rc == 0:
+    if missing and total['runs'] >= 4000 and rc == 0:
         print("HARNESS-ERROR reach probes stuck at zero: %s" % missing)
         rc = 2
     if total['viols']:
